@@ -117,8 +117,12 @@ impl Ledger {
                         // partial overlap cannot be a valid free; keep conservative: drop
                     }
                 }
-                for a in &mut self.done_alloc[b.frame..b.end()] {
-                    *a = false;
+                // (a free the allocator wrongly accepted may lie outside the range: stay robust)
+                if *order < 64 && b.frame < self.frames {
+                    let end = b.end().min(self.frames);
+                    for a in &mut self.done_alloc[b.frame..end] {
+                        *a = false;
+                    }
                 }
             }
             (Call::Put { .. }, Outcome::Err(_)) => {
